@@ -61,6 +61,25 @@ pub fn from_heap<T, N: ArrayLength, const R: usize>() {
     once(0, l);
 }
 
+/// zero-sized drop-counting elements: every length has the same (empty) layout, only the length check tells them apart
+pub fn from_heap_zst<T, N: ArrayLength, const R: usize>() {
+    let n = N::USIZE;
+    let l = R / 4;
+    let mut v: Vec<TrZ> = Vec::new();
+    let mut i = 0;
+    while i < l { v.push(TrZ::new()); i += 1; }
+    let form = any_upto(3);
+    kani_cover!(form == 3);
+    let ok = match form {
+        0 => { let r: Result<GenericArray<TrZ, N>, LengthError> = GenericArray::try_from(v); let ok = r.is_ok(); if let Ok(a) = &r { assert!(a.len() == n); } drop(r); ok }
+        1 => { let r = GenericArray::<TrZ, N>::try_from_vec(v); let ok = r.is_ok(); drop(r); ok }
+        2 => { let r = GenericArray::<TrZ, N>::try_from_boxed_slice(v.into_boxed_slice()); let ok = r.is_ok(); drop(r); ok }
+        _ => { let r: Result<GenericArray<TrZ, N>, LengthError> = GenericArray::try_from(v.into_boxed_slice()); let ok = r.is_ok(); drop(r); ok }
+    };
+    assert!(ok == (l == n), "conversion of zero-sized elements must succeed exactly when the source length is N");
+    assert!(zdrops() == l && zlive() == 0, "zero-sized source elements not dropped exactly once");
+}
+
 /// the O(1) conversions hand over the same heap block
 pub fn same_block<T: Sym, N: ArrayLength, const R: usize>() {
     let n = N::USIZE;
@@ -123,6 +142,11 @@ pub mod q {
             n1_l0_s0: <(), U1, 0> unwind 6; n1_l1_s0: <(), U1, 4> unwind 6; n1_l1_s2: <(), U1, 6> unwind 6; n1_l2_s0: <(), U1, 8> unwind 6;
             n3_l0_s0: <(), U3, 0> unwind 8; n3_l2_s0: <(), U3, 8> unwind 8; n3_l2_s1: <(), U3, 9> unwind 8; n3_l3_s0: <(), U3, 12> unwind 8; n3_l3_s2: <(), U3, 14> unwind 8; n3_l4_s0: <(), U3, 16> unwind 8; n3_l4_s2: <(), U3, 18> unwind 8;
         }
+    }
+    pub mod from_heap_zst {
+        use super::super::from_heap_zst;
+        use crate::common::*;
+        lattice! { from_heap_zst; n0_l0: <(), U0, 0> unwind 5; n0_l1: <(), U0, 4> unwind 5; n2_l1: <(), U2, 4> unwind 7; n2_l2: <(), U2, 8> unwind 7; n2_l3: <(), U2, 12> unwind 7; n3_l5: <(), U3, 20> unwind 9; }
     }
     c15_lattice! { same_block; u32_n0: u32, U0, 4; u32_n1: u32, U1, 5; u32_n3: u32, U3, 7; unit_n3: (), U3, 7; u64_n4: u64, U4, 8; }
     c15_lattice! { boxed_ctors; n0: (), U0, 4; n1: (), U1, 5; n3: (), U3, 7; n4: (), U4, 8; }
